@@ -317,11 +317,14 @@ class Producer(object):
                     "Exhausted attempt quota of {}".format(self._max_attempts),
                 )
             yield self.client.load_metadata_for_topics(topic)
+            if self.stopping:
+                # stop() cancelled the load, which the client swallows
+                raise tid_CancelledError()
             if not self.client.metadata_error_for_topic(topic):
                 break
             self._req_attempts += 1
-            d = Deferred()
-            self.client.reactor.callLater(self._retry_interval, d.callback, True)
+            d = Deferred(lambda _: dc.cancel())
+            dc = self.client.reactor.callLater(self._retry_interval, d.callback, True)
             self._retry_interval *= self.RETRY_INTERVAL_FACTOR
             yield d
 
